@@ -71,6 +71,10 @@ type Disk struct {
 	nextHandle  int
 	OpenHandles map[int]string // handle -> name (open, not yet closed)
 	Record      bool
+
+	// ReadHook, if set, is called (without the lock held) at the start of every ReadAt; used to park a reader that
+	// already holds a reference to a WAL state.
+	ReadHook func(name string)
 }
 
 // OpenWriterDirSyncs mirrors the production fs package: does the first Sync on a handle obtained from
@@ -231,6 +235,9 @@ func (d *Disk) OpenWriter(dir, name string) (types.WritableFile, error) {
 // ---- file handles ----
 
 func (h *handle) ReadAt(p []byte, off int64) (int, error) {
+	if rh := h.d.ReadHook; rh != nil {
+		rh(h.name)
+	}
 	h.d.mu.Lock()
 	defer h.d.mu.Unlock()
 	if h.closed {
